@@ -414,7 +414,7 @@ size_t gp_bytes_trim(
         size_t prefix_length = strspn(str, char_set);
         str[length - 1] = last;
 
-        if (prefix_length == length - 1 && strchr(char_set, last) != NULL)
+        if (prefix_length == length - 1 && last != '\0' && strchr(char_set, last) != NULL)
             prefix_length++;
 
         length -= prefix_length;
@@ -427,7 +427,7 @@ size_t gp_bytes_trim(
 
     if (right && length > 0)
     {
-        while (strchr(char_set, ((char*)str)[length - 1]) != NULL) {
+        while (((char*)str)[length - 1] != '\0' && strchr(char_set, ((char*)str)[length - 1]) != NULL) {
             length--;
             if (length == 0)
                 break;
